@@ -449,7 +449,8 @@ func runCheck(repo, verif, prop string, thorough, verbose, writeEvidence, update
 			nline int
 		}
 		points := map[pt]*Oblig{}
-		var queries []*Oblig
+		pointsAx := map[pt]*Oblig{}
+		var queries, queriesAx []*Oblig
 		guarded := append([]*Oblig{}, run.obls...)
 		if sweep != nil {
 			guarded = append(guarded, sweep.claimed...)
@@ -463,14 +464,26 @@ func runCheck(repo, verif, prop string, thorough, verbose, writeEvidence, update
 				q := &Oblig{ID: "reach:" + o.ID, Kind: "canary", Reach: o.Reach, Formula: "false", prel: o.prel, nline: o.nline, noRetry: true}
 				points[k] = q
 				queries = append(queries, q)
+				// the same question with the quantified modelling facts kept: the solvers rarely answer sat here, but an
+				// unsat answer is a contradiction that only the quantified facts produce, and it comes as quickly as the
+				// vacuous discharge it explains
+				qa := &Oblig{ID: "reachax:" + o.ID, Kind: "reach", Reach: o.Reach, Formula: "false", prel: o.prel, nline: o.nline, noRetry: true}
+				pointsAx[k] = qa
+				queriesAx = append(queriesAx, qa)
 			}
 		}
 		solveAll(queries, wd, timeout, false, 12)
+		axT := 3
+		if timeout < axT {
+			axT = timeout
+		}
+		solveAll(queriesAx, wd, axT, false, 12)
 		for _, o := range guarded {
 			if o.prel == nil || o.Result != "unsat" {
 				continue
 			}
-			if q := points[pt{o.prel, o.Reach, o.nline}]; q != nil && q.Result == "unsat" {
+			k := pt{o.prel, o.Reach, o.nline}
+			if q, qa := points[k], pointsAx[k]; (q != nil && q.Result == "unsat") || (qa != nil && qa.Result == "unsat") {
 				vacNow = append(vacNow, o.ID)
 				if !vacBase[stripProp(o.ID)] && !updateLedger {
 					vacNew = append(vacNew, o.ID)
